@@ -6,7 +6,7 @@ import random
 import common as C
 import p_session as S
 
-DEVS = ["StripNewNonce", "StripServerNonce", "StripNonceHash", "StripGAB", "RsaLeftAligned"]
+DEVS = ["StripNewNonce", "StripServerNonce", "StripNonceHash", "StripGAB", "RsaLeftAligned", "SkipExchangeWhenKeyInMemory"]
 
 
 def hs_normalise(sid, events, lying):
@@ -25,7 +25,7 @@ def hs_normalise(sid, events, lying):
             out.append({"e": k, "keyok": bool(e.get("keyok")), "msgkeyok": bool(e.get("msgkeyok")), "saltok": bool(e.get("saltok", False))})
         elif k == "Timeout":
             out.append({"e": k, "waiting": e.get("waiting", "")})
-        elif k == "End":
+        elif k in ("End", "Retry"):
             out.append({"e": k})
         else:
             out.append({"e": "Other"})
@@ -50,6 +50,8 @@ def hs_run(ctx, scs, family):
         s = scen[v["sc"]]
         h = s["hs"]
         cls = "lie=%s.%s.%s" % (h["lie"]["Step"], h["lie"]["Field"], h["lie"]["How"]) if h.get("lie") else "corner=%s:lz=%s" % (h.get("corner"), h.get("lz"))
+        if h.get("retry"):
+            cls = "second-attempt-after:" + cls
         evs = by.get(v["sc"], [])
         ctx.disagreement("%s:%s" % (v["kind"], cls), "key exchange %s: %s" % (cls, v["kind"]),
                          {"scenario": s, "verdict": v, "events": [e for e in evs if e["e"] != "Gate"][:80]})
@@ -85,6 +87,14 @@ def run(ctx):
         sid += 1
         # every fourth on a store that says "nothing stored" with (nil, nil) instead of a not-found error
         scs.append(S.mk(sid, "honest", "handshake", steps, fresh=True, hs={"corner": "", "lz": 0}, seed=ctx.seed * 100000 + sid, nilstore=(k % 4 == 3)))
+    # a client object whose first exchange was abandoned (at each step of the exchange) is connected again, to a conformant server
+    # (Handshake!Again): the second attempt is an exchange like any other
+    for step, field, how in (("dhGen", "kind", "retry"), ("dhGen", "kind", "fail"), ("dhGen", "new_nonce_hash", "flip"), ("dhGen", "nonce", "fresh"),
+                             ("dhParams", "answer_hash", "flip"), ("dhInner", "server_nonce", "flip"), ("resPQ", "nonce", "flip"),
+                             ("resPQ", "fingerprints", "none")):
+        sid += 1
+        scs.append(S.mk(sid, "second-attempt", "handshake", steps, fresh=True, seed=ctx.seed * 100 + sid,
+                        hs={"corner": "", "lz": 0, "retry": True, "lie": {"Step": step, "Field": field, "How": how, "Bit": rng.randrange(64)}}))
     nev, verdicts = hs_run(ctx, scs, "c06")
     C.write_evidence(ctx, "model_checking", {
         "states": mc.distinct, "transitions": mc.generated, "traces_validated_against_impl": len(scs),
